@@ -1,6 +1,43 @@
 //! Kani harnesses (E3), mounted into the real crate by
 //! `#[cfg(kani)] #[path = "/verif/kani/mod.rs"] mod kani_harnesses;` in src/voronoi/verif_hooks.rs.
 //! Nothing here is compiled outside `cargo kani`.
+//!
+//! Files named `*_priv.rs` are mounted by one `#[cfg(kani)] #[path = ..] mod ..;` line at the end of the
+//! module whose private items they need (boundary.rs, half_space.rs, generator.rs, convex_cell.rs).
 #![allow(unused_imports, dead_code)]
 
 mod boundary;
+pub(crate) mod dims;
+pub(crate) mod dotmodel;
+mod finalize;
+
+use crate::voronoi::Dimensionality;
+use glam::DVec3;
+
+/// every `Dimensionality`
+pub(crate) fn any_dim() -> Dimensionality {
+    let k: u8 = kani::any();
+    kani::assume(k < 3);
+    match k {
+        0 => Dimensionality::OneD,
+        1 => Dimensionality::TwoD,
+        _ => Dimensionality::ThreeD,
+    }
+}
+
+/// every bit pattern in every component (NaN, infinities, subnormals, signed zeros included)
+pub(crate) fn any_vec() -> DVec3 {
+    DVec3::new(kani::any(), kani::any(), kani::any())
+}
+
+pub(crate) fn finite(v: DVec3) -> bool {
+    v.x.is_finite() && v.y.is_finite() && v.z.is_finite()
+}
+
+pub(crate) fn within(v: DVec3, m: f64) -> bool {
+    finite(v) && v.x.abs() <= m && v.y.abs() <= m && v.z.abs() <= m
+}
+
+pub(crate) fn same_bits(a: DVec3, b: DVec3) -> bool {
+    a.x.to_bits() == b.x.to_bits() && a.y.to_bits() == b.y.to_bits() && a.z.to_bits() == b.z.to_bits()
+}
